@@ -3,6 +3,7 @@ import TssVerif.Core.OpsCrypto
 import TssVerif.Core.Sign
 import TssVerif.Core.EngineTables
 import TssVerif.Core.Ckd
+import TssVerif.Core.Primes
 /-! Line-protocol ops for signing arithmetic. -/
 namespace TssVerif.OpsSign
 open TssVerif Wire OpsCrypto Sign
@@ -50,10 +51,30 @@ def run (op : String) (args : List String) : Option String :=
     match pPoint pub, pDec depth, pBytes cc, pList pDec path with
     | some pub, some depth, some cc, some path =>
       let k : Ckd.ExtKey := ⟨pub, depth, 0, cc, [0, 0, 0, 0], [0x04, 0x88, 0xad, 0xe4]⟩
-      some ((Ckd.derivePath Secp256k1.n path k 0).render fun (il, c) =>
+      some ((Ckd.derivePath Secp256k1.curve Secp256k1.n path k 0).render fun (il, c) =>
         rNat il ++ " " ++ rPoint c.pub ++ " " ++ toString c.depth ++ " " ++ toString c.childIndex ++ " " ++
           rBytes c.chainCode ++ " " ++ rBytes c.parentFP ++ " " ++ Ckd.serialize c)
     | _, _, _, _ => none
+  | "sample_positive", [bound, cands] =>
+    match pNat bound, pList pNat cands with
+    | some b, some cs => some (match Primes.getRandomPositiveInt b cs with
+      | some v => "ok " ++ rNat v
+      | none => "exhausted")
+    | _, _ => none
+  | "sample_relprime", [n, cands] =>
+    match pNat n, pList pNat cands with
+    | some n, some cs => some (match Primes.getRandomRelPrime n cs with
+      | some v => "ok " ++ rNat v
+      | none => "exhausted")
+    | _, _ => none
+  | "sample_qnr", [n, cands] =>
+    match pNat n, pList pNat cands with
+    | some n, some cs => some (match Primes.getRandomQNR n cs with
+      | .ok (some v) => "ok " ++ rNat v
+      | .ok none => "exhausted"
+      | .err e => "err " ++ e
+      | .panic e => "panic " ++ e)
+    | _, _ => none
   | "ed25519_verify", [pub, msg, sig] =>
     match pBytes pub, pBytes msg, pBytes sig with
     | some pub, some msg, some sig => some (rBool (Ed.verify pub msg sig))
